@@ -20,6 +20,7 @@ type jsonBind struct {
 	first *Term // the (fresh, hence unique) first byte of the message
 	n     int
 	obj   value
+	all   []*Term // every byte (content match for concrete messages)
 }
 
 type nondetRec struct {
@@ -104,28 +105,29 @@ type interp struct {
 	traceOut     io.Writer
 
 	// per path state
-	globals      map[*ssa.Global]*value
-	pkgInit      map[*ssa.Package]bool
-	inInit       int
-	pc           []*Term
-	pcUnknown    bool // some feasibility answer on this path was "unknown"
-	nondetCount  map[string]int
-	nondets      []nondetRec
-	steps        int
-	ufApps       map[string][]*ufApp
-	ufCount      int
-	onceDone     map[*value]bool
-	stubCalls    map[string]int
-	stubLog      []stubCallRec // per path: every by-name stub call with its arguments
-	clock        int64         // per path: ticks of the concrete clock stub
-	jsonBinds    []jsonBind
-	harnessStubs map[string][]value
-	tickers      int
-	atomicVals   map[*value]value
-	lastTime     *Term
-	reachedNow   []string
-	recovered    []string
-	params       map[string]int64
+	globals       map[*ssa.Global]*value
+	pkgInit       map[*ssa.Package]bool
+	inInit        int
+	pc            []*Term
+	pcUnknown     bool // some feasibility answer on this path was "unknown"
+	nondetCount   map[string]int
+	nondets       []nondetRec
+	steps         int
+	ufApps        map[string][]*ufApp
+	ufCount       int
+	onceDone      map[*value]bool
+	stubCalls     map[string]int
+	stubLog       []stubCallRec // per path: every by-name stub call with its arguments
+	clock         int64         // per path: ticks of the concrete clock stub
+	jsonBinds     []jsonBind
+	harnessStubs  map[string][]value
+	harnessCursor map[string]int // scripted harness stubs: next result group
+	tickers       int
+	atomicVals    map[*value]value
+	lastTime      *Term
+	reachedNow    []string
+	recovered     []string
+	params        map[string]int64
 
 	// exploration state
 	prefix      []int
@@ -163,6 +165,7 @@ func (in *interp) resetPath() {
 	in.clock = 0
 	in.jsonBinds = nil
 	in.harnessStubs = map[string][]value{}
+	in.harnessCursor = map[string]int{}
 	in.tickers = 0
 	in.atomicVals = map[*value]value{}
 	in.lastTime = nil
